@@ -1,6 +1,7 @@
 (* C01 - BER encode/decode round trip under every encoder mode.  Statements only. *)
 From PV Require Import Base.Bytes Model.Tag Model.TableTypes Model.Types Model.Enc Model.Dec Gen.Tables
-     Proofs.TagOctets Proofs.TagsetShape Proofs.RoundTrip1 Proofs.RoundTrip2.
+     Proofs.TagOctets Proofs.TagsetShape Proofs.RoundTrip1 Proofs.RoundTrip2 Proofs.RoundTrip3b Proofs.RoundTrip3e Proofs.RoundTrip3f
+     Proofs.RoundTripModesC Proofs.RoundTripModes.
 Local Open Scope N_scope.
 
 (* the framing octets invert *)
@@ -63,3 +64,60 @@ Example C01_roundtrip_stage2_nonvacuous :
            104; 10; 48; 8; 48; 4; 5; 0; 5; 0; 48; 0; 48; 0]
   /\ N.of_nat 50 <= index_max.
 Proof. exact roundtrip_stage2_nonvacuous. Qed.
+
+(* Stage 3: THE WHOLE UNIVERSE in definite-length mode, for every input.  stage3_ty is the type language
+   with no constructor left out - simple types, SEQUENCE OF, SET OF, SEQUENCE and SET with mandatory,
+   OPTIONAL and DEFAULT components, CHOICE, ANY, IMPLICIT/EXPLICIT tagging, nested to any depth - under
+   exactly the well-formedness the decoder needs (the harness generator's wf): sibling tag sets in SET,
+   CHOICE and runs of OPTIONAL components are suffix-free (keys_ok / seq_wf), IMPLICIT not directly on
+   CHOICE/ANY, untagged ANY only where the library supports it.  stage3_val: shape of the value, and a
+   present OPTIONAL component does not encode to nothing under CER/DER (finding F24).  Encoder BER or DER,
+   decoder BER, CER or DER, anything may follow. *)
+Theorem C01_roundtrip_stage3 : forall ce cd T v b tl,
+  enc_ok ce -> stage3_ty false ce T = true -> stage3_val ce cd T v = true ->
+  encode ce true 0 T v = Ok b -> N.of_nat (length b) <= index_max ->
+  exists v', decode cd (Some T) (b ++ tl) = Ok (DV T v', tl) /\ abs T v' = abs T v.
+Proof. exact roundtrip_stage3. Qed.
+Print Assumptions C01_roundtrip_stage3.
+
+Example C01_roundtrip_stage3_nonvacuous :
+  stage3_ty false BER stage3_example_ty = true
+  /\ stage3_val BER BER stage3_example_ty stage3_example_val = true
+  /\ encode BER true 0 stage3_example_ty stage3_example_val
+     = Ok [105; 40; 48; 38; 4; 2; 7; 8; 160; 3; 255; 255; 255; 49; 19; 161; 3; 1; 2; 3; 1; 1; 1; 163; 9; 48; 7; 5; 0;
+           160; 3; 2; 1; 5; 49; 6; 2; 1; 9; 1; 1; 0]
+  /\ N.of_nat 42 <= index_max.
+Proof. exact roundtrip_stage3_nonvacuous. Qed.
+
+(* "under every encoder mode", for every input: segmented strings (any chunk size, definite or
+   indefinite outer form), and the indefinite-length mode for the recursive stage-2 fragment; the
+   excluded class no_f01 is exactly finding F01 (an EXPLICIT tag directly over BOOLEAN / INTEGER /
+   ENUMERATED / NULL / OBJECT IDENTIFIER / REAL in indefinite mode) *)
+Theorem C01_roundtrip_segmented_strings : forall cd d chunk T v b tl,
+  dec_ok cd -> wf_tags T = true -> string_ty T = true -> stage1_val BER cd T v = true ->
+  encode BER d chunk T v = Ok b -> N.of_nat (length b) <= index_max ->
+  exists v', decode cd (Some T) (b ++ tl) = Ok (DV T v', tl) /\ abs T v' = abs T v.
+Proof. exact roundtrip_segmented_strings. Qed.
+Print Assumptions C01_roundtrip_segmented_strings.
+
+Theorem C01_roundtrip_segmented_stage2 : forall cd chunk T v b tl,
+  dec_ok cd -> stage2_ty T = true -> modes_val BER cd T v = true ->
+  encode BER true chunk T v = Ok b -> N.of_nat (length b) <= index_max ->
+  exists v', decode cd (Some T) (b ++ tl) = Ok (DV T v', tl) /\ abs T v' = abs T v.
+Proof. exact roundtrip_segmented_stage2. Qed.
+Print Assumptions C01_roundtrip_segmented_stage2.
+
+Theorem C01_roundtrip_indefinite : forall cd chunk T v b tl,
+  dec_ok cd -> stage2_ty T = true -> RoundTripModes.no_f01 T = true -> modes_val BER cd T v = true ->
+  encode BER false chunk T v = Ok b -> N.of_nat (length b) <= index_max ->
+  exists v', decode cd (Some T) (b ++ tl) = Ok (DV T v', tl) /\ abs T v' = abs T v.
+Proof. exact roundtrip_indefinite. Qed.
+Print Assumptions C01_roundtrip_indefinite.
+
+(* F01 seen from the theorem's side: the excluded class does not round-trip *)
+Example C01_refuted_F01 :
+  exists T v b, encode BER false 0 T v = Ok b /\ decode BER (Some T) b <> Ok (DV T v, []).
+Proof.
+  exists (TExp (mkTag Ctx false 1) TInt), (VInt 5), [161; 3; 2; 1; 5; 0; 0].
+  split; vm_compute; [reflexivity|discriminate].
+Qed.
